@@ -22,6 +22,7 @@ GEnv ==
           M_ClientHeaders(s, es, k) /\ Rec([op |-> "open", s |-> s, es |-> es, k |-> k])
     \/ \E s \in Streams : ~Closed(s) /\ M_ClientData(s, TRUE) /\ Rec([op |-> "data", s |-> s, es |-> TRUE])
     \/ \E s \in Streams : Useful(s) /\ M_ClientRST(s) /\ Rec([op |-> "rst", s |-> s])
+    \/ M_Graceful /\ Rec([op |-> "goaway"])      \* a graceful shutdown begins; the driver picks the cause
     \/ \E s \in Streams : M_HandlerWrite(s) /\ Rec([op |-> "hwrite", s |-> s])
     \/ \E s \in Streams, p \in MCPanics :
           M_HandlerReturn(s, p) /\ Rec([op |-> IF p THEN "hpanic" ELSE "hret", s |-> s])
